@@ -673,7 +673,7 @@ def rule_extent(rep, S, cap, mode="write", R="C02.extent"):
             continue
         if mode == "write" and re.search(r"\)\s*const", ir.qtype(fn)):
             continue
-        if mode == "read" and not (fn.get("name") or "").startswith(("find", "rfind", "compare")):
+        if mode == "read" and not ((fn.get("name") or "").startswith(("find", "rfind", "compare")) or re.search(r"\)\s*const", ir.qtype(fn))):
             continue
         lab = "%s::%s" % (S.tag, S.label(fn))
         bl = fs.buffer_locals(fn)
@@ -960,6 +960,8 @@ def rule_extent(rep, S, cap, mode="write", R="C02.extent"):
                             a, b = off(t[2]), off(t[3])
                         if a is None and b is None:
                             a, b = foff(t[2]), foff(t[3])
+                        if a is not None and b is not None and (may_wrap(t[2]) or may_wrap(t[3])):
+                            return          # a sum of unsigned values that may have wrapped around: the comparison tells nothing reliable
                         if a is not None and b is not None:
                             facts.extend(linear.atom_facts(op, a, b))
                             if op == "!=":
@@ -973,6 +975,20 @@ def rule_extent(rep, S, cap, mode="write", R="C02.extent"):
                                     facts.append(b - a - Lin({"": 1}))
                     elif t[0] == "ref" and t[1] in pending_find and truth:
                         found_nonnull(t[1])
+
+                def may_wrap(t_):
+                    """an unsigned sum with a caller-supplied operand that no fact bounds (count = npos): it may exceed the type"""
+                    while t_[0] == "cast":
+                        t_ = t_[3]
+                    if t_[0] != "bin" or t_[1] != "+":
+                        return False
+                    for side in (t_[2], t_[3]):
+                        v_ = val(side)
+                        if v_ is None:
+                            continue
+                        if any(str(k_).startswith("p:") for k_ in v_) and not linear.entails(facts, Lin({"N": 2, "": 8}) - v_, tuple(nonneg)):
+                            return True
+                    return False
 
                 def found_nonnull(name):
                     o_, n_ = pending_find.pop(name)
@@ -1259,6 +1275,19 @@ def rule_extent(rep, S, cap, mode="write", R="C02.extent"):
                             o_, ln = off(t[2]), val(t[3])
                             if o_ is not None and ln is not None:
                                 ranges.append((o_, o_ + ln))
+                        elif n.get("kind") == "CallExpr" and t[0] == "call" and t[1][0] == "ref" and t[1][1] in ("copy", "move") and len(t) == 5:
+                            # characters copied out of the own buffer: traits copy(dst, src, n) reads [src, src + n); std::copy(first, last, dst) reads [first, last)
+                            from .. import trange as _tr2
+                            if _tr2.type_range(ir.qtype(ir.ekids(n)[3])) is not None:
+                                o_, ln = off(t[3]), val(t[4])
+                                if o_ is not None and ln is not None and off(t[2]) is None:
+                                    ranges.append((o_, o_ + ln))
+                            else:
+                                f_, l_ = off(t[2]), off(t[3])
+                                if f_ is not None and l_ is not None and off(t[4]) is None:
+                                    ranges.append((f_, l_))
+                            if not ranges:
+                                continue
                         elif n.get("kind") != "CallExpr" or t[0] != "call" or t[1][0] != "ref" or t[1][1] not in ("compare", "find") or len(t) != 5:
                             continue
                         rargs = t[2:]
